@@ -38,7 +38,7 @@ theorem C18_next_search_fresh (hasBook : State → Bool) (s : Sess) (cmd : Strin
     (hclean : s.searching = false ∧ s.artifact = false)
     (h : splitAsciiWs cmd = "go" :: args) (hb : hasBook s.pos = false) :
     ∃ d t pre, step hasBook s cmd =
-      some ({ s with searching := true, artifact := false }, pre ++ [Out.searchStarted d t false], false) := by
+      some ({ s with searching := true, artifact := false, searchOk := true }, pre ++ [Out.searchStarted d t false], false) := by
   obtain ⟨h1, h2⟩ := hclean
   unfold step
   rw [h]
